@@ -1,9 +1,16 @@
 ---- MODULE MCWindow ----
 EXTENDS Window, Json
+\* strategy lists of the exhaustive instances (a cfg file cannot hold tuples)
+StratDefault == { << <<"close">> >>, << <<"close">>, <<"nonempty">> >> }
+StratMore == { << <<"nonempty">>, <<"close">> >>, << <<"close">>, <<"periodic", 2>> >>, << <<"periodic", 2>> >>, << <<"nonempty">> >>,
+               << <<"periodic", 3>>, <<"nonempty">>, <<"close">> >>,
+               << <<"close">>, <<"change">> >>, << <<"change">>, <<"close">> >>, << <<"nonempty">>, <<"change">> >> }
+StratAll == StratDefault \cup StratMore
+
 \* Behaviour emission for spec -> implementation replay: one JSON line per
 \* complete stream (every prefix's firings are contained in it).
 Emit == (Len(stream) = MaxLen /\ flushed # <<>>) =>
-          PrintT(<<"REPLAY", ToJson([w |-> width, s |-> slide, nonempty |-> ne, stream |-> stream, flush |-> flushed[1],
+          PrintT(<<"REPLAY", ToJson([w |-> width, s |-> slide, strat |-> strat, stream |-> stream, flush |-> flushed[1],
                      fired |-> [k \in 1..Len(fired) |->
                         [idx |-> fired[k].idx, ts |-> fired[k].ts, close |-> fired[k].close,
                          items |-> fired[k].items]]])>>)
